@@ -601,6 +601,10 @@ def one_scenario(pid, sc, res, dr, stats, C, dist, seen_nontrivial, phases, add_
             if tr.step_error:
                 dist["step_error:" + tr.step_error[1]] = dist.get("step_error:" + tr.step_error[1], 0) + 1
             C.declared_events = sc["events"]
+            n_tracked = len(getattr(tr.sim, "_event_tracking", []) or [])
+            if sc["events"] and not tr.build_error and n_tracked != len(sc["events"]):
+                add_violation({"property": pid, "t": 0, "what": f"{len(sc['events'])} valid events were registered, the simulation tracks {n_tracked} "
+                                                               "(an event without tracker never happens)"}, sc)
             for st in tr.steps:
                 res["steps"] += 1
                 try:
